@@ -95,9 +95,15 @@ type logDB struct {
 	mu    sync.Mutex
 	inner *youdb.MemDatabase
 	on    bool // log writes
-	snap  bool // keep a frozen copy after every logged write
+	snap  bool // keep a frozen copy after every relevant logged write (nil for the others)
 	log   []write
 	snaps []map[string][]byte
+	// relevant: does the write touch anything the model knows about (set by the world)
+	relevant func(write) bool
+	// amp multiplies what batches report as ValueSize(): with a large factor every
+	// "flush when the batch reaches IdealBatchSize" site in the code under test fires
+	// after the first entry, so size thresholds cannot hide a non-atomic sequence
+	amp int
 }
 
 func newLogDB() *logDB { return &logDB{inner: youdb.NewMemDatabase()} }
@@ -125,7 +131,11 @@ func (d *logDB) record(w write) {
 	}
 	d.log = append(d.log, w)
 	if d.snap {
-		d.snaps = append(d.snaps, d.dump())
+		if d.relevant == nil || d.relevant(w) {
+			d.snaps = append(d.snaps, d.dump())
+		} else {
+			d.snaps = append(d.snaps, nil)
+		}
 	}
 }
 
@@ -162,7 +172,12 @@ func (b *logBatch) Delete(key []byte) error {
 	b.elems = append(b.elems, classify(key, nil, true))
 	return b.b.Delete(key)
 }
-func (b *logBatch) ValueSize() int { return b.b.ValueSize() }
+func (b *logBatch) ValueSize() int {
+	if b.d.amp > 1 {
+		return b.b.ValueSize() * b.d.amp
+	}
+	return b.b.ValueSize()
+}
 func (b *logBatch) Write() error {
 	b.d.mu.Lock()
 	defer b.d.mu.Unlock()
